@@ -16,7 +16,7 @@ import time
 from collections import Counter
 from pathlib import Path
 
-from . import common, drv, drv_sweep as sw, rn, tables
+from . import common, drv, drv_findings as dfind, drv_hunt as dh, drv_sweep as sw, rn, tables
 
 PID = "C03"
 
@@ -36,12 +36,23 @@ SUB_CASES = [
 ]
 
 
+EXOTIC_SOURCES = [h + b for h in ('s = "a\x0cb"\n', "# see\x0cfoo bar\n", 's = "a\u2028b"\n', 's = "a\x1cb"\n', 's = "a\x85b"\n', "\x0c\n")
+                  for b in ("x = np.zeros(3)\nprint(s if 's' in dir() else x)\n",
+                            "x = foo(1,\n        2)\nfor i in range(10):\n    y = 1\n    print(i, y, x)\n")]
+DUPLICATE_SOURCES = [
+    "def ffff(x):\n    return [ffff(x - 1)] if x else 1\n\n\ndef g(x):\n    return [g(x - 1)] if x else 1\n\n\nprint(ffff(2), g(3))\n",
+    "def ffff(): return [ffff]\ndef g(): return [g]\nprint(ffff, g)\n",
+    "def a(x):\n    return x + 1\n\n\ndef b(x):\n    return x + 1\n\n\nprint(a(1), b(2))\n",
+    "class K:\n    def m(self):\n        return self.m\n\n    def n(self):\n        return self.n\n\n\nprint(K)\n",
+]
+TAB_SOURCES = ["def f():\n\tfor i in range(10):\n\t\ty = 1\n\t\tprint(i, y)\n", "for i in r:\n\tif a:\n\t\tf()\n\telse:\n\t\tg()\n\t\th()\n\t\tk()\n",
+               "if x:\n\timport a, b\n"]
+
+
 def is_valid(text: str) -> bool:
-    try:
-        ast.parse(text)
-        return True
-    except (SyntaxError, ValueError):
-        return False
+    """the oracle of C03 is the interpreter's compile(), not ast.parse: text such as `[(yield x) for x in y]` or an
+    assignment hoisted above its `global` statement parses but is rejected when the module is compiled"""
+    return dh.compiles(text)
 
 
 # ---- known-finding predicates (keyed by sig=) ----------------------------------------------------
@@ -53,6 +64,20 @@ def _sig_expandtabs(case) -> bool:
 
 SIGS = {"expandtabs_breaks_indent": _sig_expandtabs}
 WITNESS = {"F03-1": "if a:\n    \tif b:\n   \t  y = 2\n"}
+
+
+def file_finding(findings, b) -> object | None:
+    """real-file failures: matched by site main.format_file + a predicate on the bytes"""
+    for f in findings:
+        if f.kind != "finding" or f.fields.get("site") != "main.format_file":
+            continue
+        sig = f.fields.get("sig")
+        data = eval(b["bytes_before"])  # noqa: S307  (repr of bytes produced by this module)
+        if sig == "bom_and_tab_prepass" and data.startswith(b"\xef\xbb\xbf") and b"\t" in data:
+            return f
+        if sig == "tab_prepass_on_file" and b"\t" in data and not data.startswith(b"\xef\xbb\xbf"):
+            return f
+    return None
 
 
 def match_finding(findings, site: str, case) -> object | None:
@@ -92,6 +117,44 @@ def sub_oracle(mods, wd: Path) -> list[dict]:
                 bad.append({"entry_point": ep, "case": name, "pattern": pat, "replacement": repl,
                             "source": src, "output": out})
     return bad
+
+
+# ---- real files through the real format_file (bytes on disk, line endings, BOM) -----------------------
+
+def real_file_cases(mods, wd: Path) -> tuple[int, list[dict]]:
+    """every file variant of drv_hunt.file_variants() through main.format_file with the real format_code.
+    Oracle = the property on BYTES: a file the interpreter compiles is still compilable afterwards; a call that
+    reports no change leaves bytes and mtime alone; unchanged bytes mean the file was not rewritten."""
+    main = mods["main"]
+    bad, n = [], 0
+    d = Path(tempfile.mkdtemp(dir=wd))
+    for tag, data in dh.file_variants():
+        n += 1
+        f = d / "module.py"
+        f.write_bytes(data)
+        os.utime(f, ns=(10 ** 18, 10 ** 18))
+        before_mtime = f.stat().st_mtime_ns
+        ok_before = dh.compiles(data)
+        mods["core"].parse.cache_clear()
+        try:
+            with common.quiet():
+                ret = main.format_file(f)
+            err = None
+        except Exception as e:  # noqa
+            ret, err = None, f"{type(e).__name__}: {e}"
+        after = f.read_bytes()
+        touched = f.stat().st_mtime_ns != before_mtime
+        probs = []
+        if ok_before and not dh.compiles(after):
+            probs.append("PROPERTY: a file the interpreter accepts was replaced by one it rejects")
+        if err is None and not ret and (after != data or touched):
+            probs.append("format_file reported no change but the file was written")
+        if err is None and after == data and touched:
+            probs.append("PROPERTY: the file was rewritten although its bytes did not change")
+        if probs:
+            bad.append({"variant": tag, "bytes_before": repr(data), "bytes_after": repr(after), "returned": repr(ret),
+                        "error": err, "problems": probs})
+    return n, bad
 
 
 # ---- check -----------------------------------------------------------------------------------------
@@ -191,6 +254,17 @@ def check(run: common.Run):
                               "case": {"template": name, "source": src, "removed": [stmts[j] for j in rem],
                                        "passes": o["passes"], "impl_output": o["out"]}})
 
+    # (g) real files: line endings, BOM, final line break -- bytes on disk before / after the real format_file
+    n_files, fbad = real_file_cases(mods, wd)
+    for b in fbad:
+        f = file_finding(findings, b)
+        if f is None:
+            failing_inputs.append({"kind": "property-oracle", "what": "format_file on a real file: " + "; ".join(b["problems"]),
+                                   "site": "main.format_file", "case": b})
+        else:
+            hist[f"real files matched {f.id}"] += 1
+    hist["real file variants"] = n_files
+
     # (e) the real pattern-substitution entry points
     for b in sub_oracle(mods, wd):
         failing_inputs.append({"kind": "property-oracle", "what": "valid input became invalid output", "case": b})
@@ -198,7 +272,7 @@ def check(run: common.Run):
 
     # ---- sweep (not proof): format_code + every stage function on the deterministic corpus
     fam = sw.build_corpus(run.tier)
-    budget = 45 if run.tier == "quick" else 900
+    budget = 75 if run.tier == "quick" else 900
     deadline = time.time() + budget
     jobs, meta = [], {}
     valid_srcs = {k: [s for s in v if is_valid(s)] for k, v in fam.items()}
@@ -215,6 +289,35 @@ def check(run: common.Run):
         for n in text_stages:
             jid = len(jobs)
             jobs.append((jid, s, n, 1))
+            meta[jid] = ("rule", n)
+    # round-4 families: multi-line first statements x undefined names, decorated scope heads x overused constants,
+    # one-line compound statements x inserting rules, compile()-only errors, exotic line breaks, duplicates
+    hunt_stages = {
+        "first_statement": ["fixes.add_missing_imports", "fixes.sort_imports", "fixes.remove_unused_imports",
+                            "fixes.move_imports_to_toplevel", "abstractions.overused_constant"],
+        "decorated_constant": ["abstractions.overused_constant"],
+        "oneline_compound": ["fixes.fix_duplicate_imports", "fixes.early_continue", "fixes.missing_context_manager",
+                             "fixes.move_before_loop", "abstractions.simplify_if_control_flow"],
+        "compile_only": None, "exotic_breaks": None, "duplicate_functions": ["fixes.remove_duplicate_functions"],
+    }
+    valid_srcs["exotic_breaks"] = [s_ for s_ in EXOTIC_SOURCES if is_valid(s_)]
+    valid_srcs["duplicate_functions"] = [s_ for s_ in DUPLICATE_SOURCES if is_valid(s_)]
+    for name, stages in hunt_stages.items():
+        for i, s_ in enumerate(valid_srcs[name]):
+            for o in ([sw.OPTION_COMBOS[0], sw.OPTION_COMBOS[7]] if run.tier == "quick" else sw.OPTION_COMBOS):
+                jid = len(jobs)
+                jobs.append((jid, s_, o, 1))
+                meta[jid] = ("format_code", name)
+            for n in (stages if stages is not None and run.tier == "quick" else
+                      sorted(n_ for n_ in kinds if n_.split(".")[0] not in ("str", "textwrap", "rmspace", "processing"))):
+                jid = len(jobs)
+                jobs.append((jid, s_, n, 1))
+                meta[jid] = ("rule", n)
+    for s_ in TAB_SOURCES:      # tab-indented source handed to the rules directly (format_code expands tabs first)
+        for n in ("fixes.move_before_loop", "fixes.early_continue", "fixes.fix_duplicate_imports",
+                  "abstractions.overused_constant", "abstractions.simplify_if_control_flow"):
+            jid = len(jobs)
+            jobs.append((jid, s_, n, 1))
             meta[jid] = ("rule", n)
     for name in ("tabs", "constructs", "eof", "functions", "repo", "constants"):
         srcs = valid_srcs[name][::step.get(name, 1)]
@@ -239,6 +342,8 @@ def check(run: common.Run):
         workers.close()
     sweep = Counter()
     invalid_outs = []
+    syntax_seen = set()
+    matched_ids = set()
     for jid, r in sorted(results.items()):
         kind, name = meta[jid]
         if r.get("skipped"):
@@ -246,7 +351,30 @@ def check(run: common.Run):
             continue
         sweep[f"{kind} runs"] += 1
         if r.get("timeout") or r["error"]:
-            sweep["raised or timed out (C04's business)"] += 1
+            e = r["error"]
+            if e and e["type"] in dfind.SYNTAX_ERRORS:
+                # some stage built a text that does not parse and the next parse raised: no valid text came back
+                src_, opts_ = jobs[jid][1], jobs[jid][2]
+                sites = {e["stage"], e["inner"], name if kind == "rule" else "main.format_code"}
+                if kind == "format_code":       # the stage that raised is the victim; bisect for the stage that broke the text
+                    culprit = sw.first_bad_stage(mods, src_, opts_, is_valid)
+                    if culprit:
+                        sites = {culprit}
+                        e = dict(e, stage=culprit)
+                f = dfind.match(findings, sites, src_)
+                if f is None:
+                    key = (e["type"], e["stage"], kind)
+                    if key not in syntax_seen:
+                        syntax_seen.add(key)
+                        failing_inputs.append({"kind": "sweep", "what": f"{kind}: {e['type']} raised for a valid input (an intermediate "
+                                               f"text did not parse): {e['msg']}", "site": e["stage"], "source": src_,
+                                               "options": opts_ if isinstance(opts_, dict) else {"rule": opts_}})
+                    sweep["SyntaxError raised, not a known finding"] += 1
+                else:
+                    sweep[f"matched {f.id}"] += 1
+                    matched_ids.add(f.id)
+            else:
+                sweep["raised (not a SyntaxError) or timed out: C04's business"] += 1
             continue
         out = r["outs"][0]
         if not is_valid(out):
@@ -258,13 +386,16 @@ def check(run: common.Run):
             site = sw.first_bad_stage(mods, src, opts, is_valid) or "main.format_code"
         else:
             site = name
-        f = match_finding(findings, site, {"source": src})
+        f = match_finding(findings, site, {"source": src}) or dfind.match(findings, {site}, src)
         if f is None:
-            failing_inputs.append({"kind": "sweep", "what": f"{kind}: valid input became invalid output",
+            failing_inputs.append({"kind": "sweep", "what": f"{kind}: valid input became invalid output"
+                                   + ("" if rn.valid(out) else " (does not even parse)")
+                                   + (" (parses, compile() rejects it)" if rn.valid(out) else ""),
                                    "site": site, "source": src, "options": opts if isinstance(opts, dict) else None,
                                    "output": out})
         else:
             sweep[f"matched {f.id}"] += 1
+            matched_ids.add(f.id)
 
     # ---- known findings: replay the witnesses
     for f in findings:
@@ -272,6 +403,8 @@ def check(run: common.Run):
             continue
         w = WITNESS.get(f.id)
         if w is None:
+            if f.id in matched_ids:     # reproduced by the sweep (site + predicate), no separate witness
+                run.known_finding(f.id, f"site={f.fields.get('site')[:60]} :: {f.text[:150]}")
             continue
         try:
             with common.quiet():
@@ -286,7 +419,12 @@ def check(run: common.Run):
             common.log(f"note: finding {f.id} no longer reproduces")
 
     # ---- verdicts
-    for fi in failing_inputs[:6]:
+    reported_groups = set()
+    for fi in failing_inputs:
+        gkey = (fi.get("kind"), str(fi.get("what"))[:60], fi.get("site"))
+        if gkey in reported_groups or len(reported_groups) >= 24:
+            continue
+        reported_groups.add(gkey)
         run.violation(dict(fi, explanation="the real code violates C03 on this input"), True)
     have_input = bool(failing_inputs)
     for d in disagreements[:6]:
